@@ -192,6 +192,11 @@ def run(oc, tier, seed):
                "refused by two successive `db reindex` runs and by `db create`, accepted only when whitelisted, with no note "
                "indexed. non-trivial = text with >= 1 syntax error")
     valid = [pagegen.render(pagegen.gen_page(rng, max_sections=3)) for _ in range(n_valid)]
+    # valid pages whose identity words sit next to look-alikes: a modify date followed by six digits / a digits-only tag /
+    # a long date, three-character ZIDs, a ZID after a modify date
+    valid += ["# ids\n\n- 240315 123456 is the ticket number\no 240315 #202406 budget review\n- 240316 240315#AB both\n"
+              "x P2 240317 2021-07-07 a long date as a word\n- 240315#0A7 three characters\n- 991231 000101 two dates\n\n",
+              "# ids two\n\n~ 240229 999999 not a date\n- 240229#zz 240229 leap\n< 123456 1234567 digits\n\n"]
     dmg = [damage(rng, rng.choice(valid)) for _ in range(n_dmg)]
     arb = ["".join(rng.choice(NOISE + ["foo", "bar", "- ", "o ", "# t\n", "\n"]) for _ in range(rng.randint(1, 25))) for _ in range(n_arb)]
     corpus = [json.load(open(f)) for f in sorted(glob.glob(os.path.join(lib.VERIF, "corpus", "C08", "*.json")))]
